@@ -61,6 +61,12 @@ func removeRPC(p *Program, idx int) *Program {
 	q.RPCs = append(q.RPCs[:idx], q.RPCs[idx+1:]...)
 	for i, r := range q.RPCs {
 		r.ID = i
+		switch {
+		case r.After == idx+1:
+			r.After = 0
+		case r.After > idx+1:
+			r.After--
+		}
 	}
 	var fs []Fault
 	for _, f := range q.Faults {
@@ -138,6 +144,12 @@ func candidates(p *Program) []*Program {
 		}
 		if r.StopOnErr {
 			mod(func(r *RPC) { r.StopOnErr = false })
+		}
+		if r.After != 0 {
+			mod(func(r *RPC) { r.After = 0 })
+		}
+		if r.DynC || r.DynH {
+			mod(func(r *RPC) { r.DynC, r.DynH = false, false })
 		}
 		simplifyOps := func(get func(r *RPC) []Op) {
 			for oi, op := range get(r) {
